@@ -24,8 +24,13 @@ def stR (multiplier : Num F) (x : Ctx F) : PyM (Option (Val F) × PyM (Val F)) :
     let close ← x.num "close"
     let pu ← x.prevNum dUpper
     let pl ← x.prevNum dLower
-    if close.gt pu then direction := .int 1
-    else if close.lt pl then direction := .int (-1)
+    let pd ← x.prevReading (x.name ++ ".direction")
+    let above := close.gt pu
+    let below := close.lt pl
+    if above && below then
+      direction := if pd.isIntOne then .int (-1) else .int 1
+    else if above then direction := .int 1
+    else if below then direction := .int (-1)
     else
       direction ← x.prevNum (x.name ++ ".direction")
       if direction.eq (.int 1) && lower.lt pl then lower := pl
@@ -48,6 +53,7 @@ theorem st_fact (D : String) (m : Num F) (cs : List (Candle F)) (i : Int) (name 
   generalize ({ cs := cs, i := i, name := name } : Ctx F).prevNum (name ++ "_data.upper") = r5
   generalize ({ cs := cs, i := i, name := name } : Ctx F).prevNum (name ++ "_data.lower") = r6
   generalize ({ cs := cs, i := i, name := name } : Ctx F).prevNum (name ++ ".direction") = r7
+  generalize ({ cs := cs, i := i, name := name } : Ctx F).prevReading (name ++ ".direction") = r8
   rcases r1 with e | atr
   · rfl
   simp only
@@ -70,6 +76,8 @@ theorem st_fact (D : String) (m : Num F) (cs : List (Candle F)) (i : Int) (name 
     · rfl
     rcases r6 with e | pl
     · rfl
+    rcases r8 with e | pd
+    · rfl
     simp only
     split
     · simp only
@@ -77,10 +85,13 @@ theorem st_fact (D : String) (m : Num F) (cs : List (Candle F)) (i : Int) (name 
     · split
       · simp only
         try (rcases setReading true D cs i _ with e | cs1 <;> rfl)
-      · rcases r7 with e | dir
-        · rfl
-        simp only
-        split <;> split <;> simp only <;> try (rcases setReading true D cs i _ with e | cs1 <;> rfl)
+      · split
+        · simp only
+          try (rcases setReading true D cs i _ with e | cs1 <;> rfl)
+        · rcases r7 with e | dir
+          · rfl
+          simp only
+          split <;> split <;> simp only <;> try (rcases setReading true D cs i _ with e | cs1 <;> rfl)
 
 end Hex
 
@@ -92,7 +103,7 @@ theorem stR_trunc (m : Num F) (x : Ctx F) (h0 : 0 ≤ x.i) (hi : x.i < x.cs.leng
     stR m x.trunc = stR m x := by
   unfold stR
   simp only [Ctx.trunc_name, Ctx.reading_trunc_cur x _ h0, Ctx.num_trunc_cur x _ h0,
-    Ctx.prevExists_trunc x _ h0 hi, Ctx.prevNum_trunc x _ h0 hi]
+    Ctx.prevExists_trunc x _ h0 hi, Ctx.prevNum_trunc x _ h0 hi, Ctx.prevReading_trunc x _ h0 hi]
 
 theorem stR_congr (m : Num F) (x y : Ctx F) (hn : x.name = y.name)
     (ha : Ctx.SameCol (y.name ++ "_atr") x y) (hh : Ctx.SameCol (y.name ++ "_HL") x y)
@@ -100,10 +111,12 @@ theorem stR_congr (m : Num F) (x y : Ctx F) (hn : x.name = y.name)
     (hpe : x.prevExists (y.name ++ "_data.lower") = y.prevExists (y.name ++ "_data.lower"))
     (hpl : x.prevNum (y.name ++ "_data.lower") = y.prevNum (y.name ++ "_data.lower"))
     (hpu : x.prevNum (y.name ++ "_data.upper") = y.prevNum (y.name ++ "_data.upper"))
-    (hpd : x.prevNum (y.name ++ ".direction") = y.prevNum (y.name ++ ".direction")) :
+    (hpr : x.prevReading (y.name ++ ".direction") = y.prevReading (y.name ++ ".direction")) :
     stR m x = stR m y := by
+  have hpd : x.prevNum (y.name ++ ".direction") = y.prevNum (y.name ++ ".direction") := by
+    unfold Ctx.prevNum; rw [hpr]
   unfold stR
-  simp only [hn, hpe, hpl, hpu, hpd, Ctx.reading_congr ha, Ctx.num_congr hh, Ctx.num_congr hc]
+  simp only [hn, hpe, hpl, hpu, hpd, hpr, Ctx.reading_congr ha, Ctx.num_congr hh, Ctx.num_congr hc]
 
 theorem st_length (D : String) (m : Num F) (name : String) (cs : List (Candle F)) (i : Int)
     (v : Val F) (cs' : List (Candle F))
@@ -176,7 +189,7 @@ def stT (Z : Ind F) (p : Int) (input : String) (m : Num F) (hk : Z.kind = .super
     have sU := sameCol_simL _ (Z.name ++ "_data.upper") (sees_dotted _ _ _ _ hn.upper (by simp)) hH hc Z.name
     have sD := sameCol_simL _ (Z.name ++ ".direction") (sees_dotted _ _ _ _ hn.dir (by simp)) hH hc Z.name
     exact stR_congr m _ _ rfl sA sH sC (Ctx.prevExists_congr sL) (Ctx.prevNum_congr sL)
-      (Ctx.prevNum_congr sU) (Ctx.prevNum_congr sD)
+      (Ctx.prevNum_congr sU) (Ctx.prevReading_congr sD)
   stable := by
     intro H c w d
     refine stR_congr m _ _ rfl
@@ -190,7 +203,7 @@ def stT (Z : Ind F) (p : Int) (input : String) (m : Num F) (hk : Z.kind = .super
     · rw [Ctx.prevExists_append_cons, Ctx.prevExists_append_cons]
     · rw [Ctx.prevNum_append_cons, Ctx.prevNum_append_cons]
     · rw [Ctx.prevNum_append_cons, Ctx.prevNum_append_cons]
-    · rw [Ctx.prevNum_append_cons, Ctx.prevNum_append_cons]
+    · rw [Ctx.prevReading_append_cons, Ctx.prevReading_append_cons]
 
 theorem calcReading_st (Z : Ind F) (p : Int) (input : String) (m : Num F) (D : String)
     (hk : Z.kind = .supertrend p input m) (hm : Z.managed = [("ST_data", leaf .managed D)])
